@@ -34,7 +34,7 @@ ASSUMPTIONS = ["iteration order of the Python set `alist` does not influence the
                "per start, set updates commute)",
                "asserts are enabled (no python -O)"]
 
-CASE_TIMEOUT_S = 3
+CASE_TIMEOUT_S = 30.0   # generous: the machine may be heavily loaded; a genuine non-termination still trips it
 MAX_TIMEOUTS = 3      # after that many non-terminating cases the run stops (failures are recorded)
 _timeouts = [0]
 
